@@ -40,12 +40,14 @@ ASSUMPTIONS = [
     "ARPA numbers are written with a negative or no exponent sign and -99 for 'impossible' (the format has "
     "no spelling of -inf); base e means the listed base-10 number divided by log10(e) (rel 1e-12)",
     "USE_JIT off (library runs as plain Python); CPU only",
+    "large-table cases are recorded as the key of the deterministic harness generator (G.gen_large), not "
+    "as 37000 literal entries; their kinds, sos and level sizes are listed under distinct_observed_values",
 ]
 BUDGET = {
-    # nominal (idle 16-core machine): quick ~15 s, thorough ~2-3 min.  `time` (thorough only) is the soft
+    # nominal (idle 16-core machine): quick ~10 s, thorough ~2 min.  `time` (thorough only) is the soft
     # limit per shard after which no further case is started; the floors are what a run must reach.
     "quick": dict(cases=128, shards=4, timeout=900),
-    "thorough": dict(cases=1000, shards=16, timeout=1800, time=540),
+    "thorough": dict(cases=1500, shards=16, timeout=1800, time=540),
 }
 _ROUTES = ["construct", "call_full", "call_idx_int", "call_idx_tensor", "call_idx_truncated",
            "calc_full_log_probs_chunked", "state_dict", "load_state_dict", "parse_arpa_lm"]
@@ -71,7 +73,7 @@ FLOORS = {
                   "state_dict_through_torch_save": 60},
         "distinct": 200,
     },
-    # nominal 16 x 1000 random + 48 large cases (the large ones run first); the floors are about a
+    # nominal 16 x 1500 random + 48 large cases (the large ones run first); the floors are about a
     # third of that so that a slow machine (soft time limit reached) still gives a verdict
     "thorough": {
         "events": {"construct": 5500, "call_full": 10000, "call_idx_int": 70000, "call_idx_tensor": 30000,
@@ -113,7 +115,10 @@ def enumerate_cases(tier):
     else:
         js = range(N_LARGE[tier])
     for j in js:
-        yield G.gen_large(random.Random("C06/large/%s/%d" % (seed, j)), j)
+        # the concrete table (up to 37000 entries) is regenerated from this key inside execute:
+        # G.gen_large is a pure function of (key, j), so the case is still fully determined
+        yield {"class": "large_" + G.LARGE_KINDS[j % len(G.LARGE_KINDS)][0],
+               "large": {"key": "C06/large/%s/%d" % (seed, j), "j": j}}
 
 
 def _seed():
@@ -408,6 +413,11 @@ def _arpa(mon, case):
 
 
 def execute(case, mon):
+    if "large" in case:
+        spec = case["large"]
+        case = G.gen_large(random.Random(spec["key"]), spec["j"])
+        mon.observe("large tables (kind, sos, level sizes)", "%s sos=%d %s" % (
+            case["class"], case["sos"], [len(level) for level in case["table"]]))
     if case["class"] == "arpa":
         parsed, want = _arpa(mon, case)
         sub = dict(case, destructive=False)
